@@ -155,11 +155,13 @@ class FnAnalysis(object):
                                 self.unordered_vars.add(v)
                                 changed = True
 
+    module_unordered = frozenset()     # module-level names of the function's module that hold a set / frozenset
+
     def kind(self, e):
         if isinstance(e, (ast.Set, ast.SetComp)):
             return 'U'
         if isinstance(e, ast.Name):
-            return 'U' if e.id in self.unordered_vars else 'O'
+            return 'U' if e.id in self.unordered_vars or e.id in self.module_unordered else 'O'
         if isinstance(e, ast.Attribute):
             return 'U' if e.attr in self.uf else 'O'
         if isinstance(e, ast.Call):
@@ -290,10 +292,27 @@ def run(repo, res):
     res.extra['unordered_fields'] = sorted(ufields)
     res.extra['unordered_returning'] = sorted(ufuncs)
 
+    # module-level tables that are sets (a table of suffixes built with frozenset(...).union(...)): iterating them anywhere in the
+    # module observes hash order
+    uglobals = {}
+    for rel, tree in repo.trees.items():
+        if rel in SKIP_FILES:
+            continue
+        probe = FnAnalysis(ast.Module(body=[], type_ignores=[]), ufields, ufuncs)
+        names = set()
+        for _ in range(3):
+            probe.module_unordered = frozenset(names)
+            for st in ast.walk(ast.Module(body=[x for x in tree.body if not isinstance(x, (ast.FunctionDef, ast.AsyncFunctionDef, ast.ClassDef))],
+                                          type_ignores=[])):
+                if isinstance(st, ast.Assign) and probe.kind(st.value) == 'U':
+                    names.update(t.id for t in st.targets if isinstance(t, ast.Name))
+        uglobals[rel] = frozenset(names)
+    res.extra['unordered_module_tables'] = sorted('%s:%s' % (r, n) for r, ns in uglobals.items() for n in ns)
     # ---- R1 order-observing conversions ------------------------------------------------------------
     nsites = 0
     for fi in funcs:
         an = FnAnalysis(fi.node, ufields, ufuncs)
+        an.module_unordered = uglobals.get(fi.rel, frozenset())
         for nd in ast.walk(fi.node):
             site = None
             src = None
